@@ -103,6 +103,11 @@ def build_altdec(explicit_u):
     def b(v):
         from nuspacesim.simulation.eas_optical.eas import EAS
 
+        if not isinstance(v["beta"], A):
+            # native runs (replay, search, call histories) use the object the real constructor builds
+            from nuspacesim.config import NssConfig
+
+            return fn, [EAS(NssConfig()), v["beta"], v["bt"], v["g"], v["u"]], {}
         eas = harness.partial(EAS)
         # the configuration the object was built with: an arbitrary detector (the decay point does not depend on it)
         if isinstance(v["beta"], A):
